@@ -50,7 +50,7 @@ def minimums(tier):
         "evaluations": 3000,
         "distinct_nontrivial": 1500,
         "counters": {"steps_raised": 100, "ctx_exit_steps": 50, "copies": 20, "solver_switches": 20},
-        "sets": {"op_kinds": 35},
+        "sets": {"op_kinds": 35, "solver_switch_forms": 3},
     }
 
 
@@ -177,6 +177,8 @@ def run_case(base, case, acc, force_dense=False):
             acc.count("copies")
         if name == "model.solver=":
             acc.count("solver_switches")
+            if isinstance(desc, dict) and desc.get("form"):
+                acc.add("solver_switch_forms", desc["form"])
         acc.add("interfaces", H.model.problem.__name__.split(".")[-1])
         if name == "ctx.exit" and _exact_copy_mechanism(H, exc):
             # from here on the history runs on a model the known optlang mechanism damaged
